@@ -251,6 +251,14 @@ def run(shard, ctx):
             ctx.check("chord-fingering: every fingering has one entry per string, sounds exactly the chord's pitch classes, and respects span, "
                       "fret and finger limits", bad is None, w, None, bad, mechanism="chordfing:" + (bad[0] if bad else "ok"))
             ctx.count("chord-fingering: fingerings examined", len(fs))
+            if fs and rng.random() < 0.25:
+                # the best fingering handed out as the notes it sounds: exactly the chord's pitch classes (the statement speaks of
+                # pitch classes; the library re-names the notes after the chord, which moves Cb / B# by an octave - not judged)
+                st2, best = ctx.call(t.find_chord_fingering, nc, md, mf, mfi, True)
+                got = sorted(set(int(n) % 12 for n in best)) if st2 == "ok" and hasattr(best, "notes") else repr(best)[:120]
+                ctx.check("chord-fingering: every fingering has one entry per string, sounds exactly the chord's pitch classes, and respects span, "
+                          "fret and finger limits", got == sorted(pcs), dict(w, as_notes=True, first_fingering=fs[0]), sorted(pcs), got,
+                          mechanism="chordfing:best-as-notes")
             ctx.case(("chordfing", tname(t), r + sh, md, mf, mfi))
         ctx.sample({"chord": "Am on Guitar / Standard", "fingerings": TU.get_tuning("Guitar", "Standard").find_chord_fingering(NoteContainer().from_chord("Am"))[:3]})
     else:
